@@ -173,6 +173,8 @@ class Translator:
         v = self.val(node)
         if not isinstance(v, np.ndarray) or v.ndim != 1 or v.dtype != np.float64:
             raise Fallback('not a one-dimensional float64 array')
+        if len(v) > 40000:
+            raise Fallback('series too long to hand to Coq as a literal')
         return f'(ALeaf {self.R.series_name(v)})'
 
     def figure(self, src):
@@ -231,7 +233,9 @@ class Renderer:
     def series_name(self, arr):
         key = arr.tobytes()
         if key not in self.series:
-            self.series[key] = (f'ser_{self.tag}_{len(self.series)}', '[' + '; '.join(c09fmt.fl(x) for x in arr.tolist()) + ']')
+            xs = [c09fmt.fl(x) for x in arr.tolist()]     # long literals in pieces: a 10^4-element list notation overflows Coq's stack
+            lit = ' ++ '.join('[' + '; '.join(xs[i:i + 500]) + ']' for i in range(0, len(xs), 500)) or '[]'
+            self.series[key] = (f'ser_{self.tag}_{len(self.series)}', f'({lit})%list')
         return self.series[key][0]
 
     def defs(self):
